@@ -687,7 +687,10 @@ def make_dw_trace(W, tid, v, skip, ents):
     return t
 
 
-def make_git_traces(W, tid, path, label, sparse=False, cwd=None, rewrite=True):
+def make_git_traces(W, tid, path, label, sparse=False, cwd=None, rewrite=True, fsck_cwd=None):
+    # cwd: repository git lists in (only a sparse index needs its own repository: listing in a repository
+    # with sparse-checkout enabled makes git clear skip-worktree bits of files present in its work tree,
+    # which says nothing about the file); fsck_cwd: repository holding the objects, for git fsck
     """A file written by C git: (a) dulwich reads it, (b) dulwich rewrites it and git reads that."""
     from dulwich.index import Index
     with open(path, "rb") as f:
@@ -720,8 +723,8 @@ def make_git_traces(W, tid, path, label, sparse=False, cwd=None, rewrite=True):
             with open(p2, "rb") as f:
                 b = f.read()
             observe_file(W, t2, p2, b, False, sparse=sparse, cwd=cwd)
-            if cwd is not None:          # a real repository: let git fsck judge the checksum of the rewritten index
-                t2["fsckok"], t2["_fsck"] = W.git.fsck_index_ok(p2, cwd=cwd)
+            if fsck_cwd is not None:     # a real repository: let git fsck judge the checksum of the rewritten index
+                t2["fsckok"], t2["_fsck"] = W.git.fsck_index_ok(p2, cwd=fsck_cwd)
         except Exception as e:  # noqa: BLE001
             t2["wrote"] = False
             t2["_wexc"] = f"{exc_name(e)}: {e}"
@@ -731,7 +734,7 @@ def make_git_traces(W, tid, path, label, sparse=False, cwd=None, rewrite=True):
     return out
 
 
-def make_hist_trace(W, tid, path, edits, label, sparse=False, cwd=None):
+def make_hist_trace(W, tid, path, edits, label, sparse=False, cwd=None, fsck_cwd=None):
     """A file written by C git, read by dulwich, edited by re-slotting the objects read, written again."""
     from dulwich.index import Index
     with open(path, "rb") as f:
@@ -753,8 +756,8 @@ def make_hist_trace(W, tid, path, edits, label, sparse=False, cwd=None):
         with open(p2, "rb") as f:
             b = f.read()
         observe_file(W, t, p2, b, False, sparse=sparse, cwd=cwd)
-        if cwd is not None:
-            t["fsckok"], t["_fsck"] = W.git.fsck_index_ok(p2, cwd=cwd)
+        if fsck_cwd is not None:
+            t["fsckok"], t["_fsck"] = W.git.fsck_index_ok(p2, cwd=fsck_cwd)
     except Exception as e:  # noqa: BLE001
         t["wrote"] = False
         t["_wexc"] = f"{exc_name(e)}: {e}"
@@ -763,12 +766,12 @@ def make_hist_trace(W, tid, path, edits, label, sparse=False, cwd=None):
     return t
 
 
-def make_gitbuilt_traces(W, tid, v, ents, label):
+def make_gitbuilt_traces(W, tid, v, ents, label, rewrite=True):
     p = W.path("g")
     err = W.git.build(p, v, ents)
     if err is not None:
         return [], err
-    ts = make_git_traces(W, tid, p, label)
+    ts = make_git_traces(W, tid, p, label, rewrite=rewrite)
     for t in ts:
         t["_input"] = {"v": v, "ents": ents}
     os.unlink(p)
@@ -929,7 +932,8 @@ def _gitbuild_blocks(args):
         if key in local:
             continue
         local.add(key)
-        ts, err = make_gitbuilt_traces(W, tid, o["v"], ents, "update-index --index-info (TLC case)")
+        # every enumerated case is read; every second one is also rewritten by dulwich and listed by git again
+        ts, err = make_gitbuilt_traces(W, tid, o["v"], ents, "update-index --index-info (TLC case)", rewrite=zlib.crc32(b.encode()) % 2 == 0)
         if err is not None:
             skipped += 1
             continue
@@ -1013,8 +1017,8 @@ def mode_traces(ctx):
     import multiprocessing as mp
     global _POOL_ROOT
     _POOL_ROOT = ctx.tmpdir("pool")
-    n_dw = ctx.pick(800, 16000)
-    n_git = ctx.pick(300, 5000)
+    n_dw = ctx.pick(600, 16000)
+    n_git = ctx.pick(200, 5000)
     per = ctx.pick(50, 400)
     jobs = []
     tid = 1
@@ -1071,14 +1075,15 @@ def mode_scenarios(ctx):
     tid = getattr(ctx, "tid_next", 10**6)
     labels = []
     for label, path, cwd, sparse in SC.scenarios(W.git, W.root, thorough=not ctx.quick, seed=ctx.seed):
-        ts = make_git_traces(W, tid, path, label, sparse=sparse, cwd=cwd)
+        ls_cwd = cwd if sparse else None
+        ts = make_git_traces(W, tid, path, label, sparse=sparse, cwd=ls_cwd, fsck_cwd=cwd)
         if not sparse and len(ts[0]["ents"]) <= 80 and ts[0]["rbok"]:
             rng = random.Random(f"{ctx.seed}:{label}")
             for j in range(ctx.pick(2, 12)):
                 eds = pick_edits(rng, ts[0]["ents"], 1 + j % 2)
                 if eds:
                     tid += 1
-                    th = make_hist_trace(W, tid + 1, path, eds, label, sparse=sparse, cwd=cwd)
+                    th = make_hist_trace(W, tid + 1, path, eds, label, sparse=sparse, cwd=ls_cwd, fsck_cwd=cwd)
                     th["_input"] = {"edits": eds}
                     ts.append(th)
                     tid += 1
@@ -1105,7 +1110,7 @@ def consts(fam, maxkeys, namemask=4095, defect="none"):
 
 
 FAMILIES = {
-    "quick": [("quick", 2, 13)],
+    "quick": [("quick", 2, 29)],
     "thorough": [("names", 2, 13), ("namesq", 3, 37), ("names3", 3, 37), ("flags", 2, 3), ("stat", 2, 3), ("exts", 3, 0), ("hist", 0, 0)],
 }
 GITBUILD_FROM = {"quick": ["quick"], "thorough": ["names", "namesq", "flags", "hist"]}
@@ -1190,8 +1195,9 @@ def replay(ctx, path):
             ts = []
             for label, p, cwd, sparse in SC.scenarios(W.git, W.root, thorough=True, seed=obj.get("seed", 0)):
                 if label == obj["scenario"]:
-                    ts = [make_hist_trace(W, 1, p, obj["edits"], label, sparse=sparse, cwd=cwd)] if obj["kind"] == "hist" \
-                        else make_git_traces(W, 1, p, label, sparse=sparse, cwd=cwd)
+                    lc = cwd if sparse else None
+                    ts = [make_hist_trace(W, 1, p, obj["edits"], label, sparse=sparse, cwd=lc, fsck_cwd=cwd)] if obj["kind"] == "hist" \
+                        else make_git_traces(W, 1, p, label, sparse=sparse, cwd=lc, fsck_cwd=cwd)
         elif obj["kind"] == "hist":
             pb = W.path("gb")
             err = W.git.build(pb, inp["v"], inp["ents"])
